@@ -19,9 +19,10 @@ procedures behind `--stmca` and `--stmcb` (`countAll`), `--stmpre` (`Cli.stableP
 `--twoval` (`SM.ngSearch`) are composed with it there from the exactness theorems C03/C04/C05
 (`…_outputs_invariant`); `--stmrew` on both library arms under the hypothesis that the library
 object denotes the native object's functions, the parser-level composition kept as a statement. `--an`
-(`varsort_alphanum`): `alphanum_reports_le_order` says which order is reported — relative to the
-UNMODELLED comparison `natural_lexical_cmp` (trust assumption of `IsVarsortAlphanum`); what that
-comparison is on concrete labels is OPEN here (not a theorem of this development). -/
+(`varsort_alphanum`): `alphanum_reports_le_order` says which order is reported — stated for an ARBITRARY comparison
+`le` (trust assumption of `IsVarsortAlphanum`); the comparison `natural_lexical_cmp` itself is modelled as
+`CliM.NatLex.le` (section on `--an` below: `an_sort_is_varsort_alphanum`, `varsort_alphanum_unique` instantiate it;
+fidelity limits of that model to the crate: see C15). -/
 namespace C10
 
 /-- the consequence operator commutes with every re-presentation -/
@@ -570,7 +571,8 @@ comparison MODELLED (`CliM.NatLex.le`, CliWorld.lean; total, transitive, antisym
 NatLexOrder.lean) the parser object after `varsort_alphanum` is determined: for pairwise different names
 there is exactly one name list that is a permutation of the old one and sorted w.r.t. `le`, the one
 insertion sort computes (`CliM.NatLex.anSort`, what `CliM.sortState … .an` and the driver use). Fidelity
-of `CliM.NatLex.le` to the crate is limited to labels within Latin-1 (see `C15`, section on `--an`). -/
+of `CliM.NatLex.le` to the crate is limited to labels within Latin-1 with digit runs below 2^64 (see `C15`, section
+on `--an`). -/
 
 /-- the model's `--an` is an instance of `IsVarsortAlphanum` for the modelled comparison … -/
 theorem an_sort_is_varsort_alphanum (st : PState) :
@@ -798,8 +800,10 @@ theorem stmrew_library_outputs_invariant {T : Type} (L : Bio.Lib T) (xs ys : Lis
   · intro v
     rw [(C03.biodivine_rewriting_exact L ys.length W' rw' acB' hv' hl' hg').2.1 v, hsame']; rfl
 
-/-- **`--stmrew` / `--stmrew2`, hybrid arm** (`Bio.nativeStableRep`: candidates from the library
-object, test on the own store; C03 `native_rewriting_exact`), same hypotheses -/
+/-- **`--stmrew` / `--stmrew2`, `hybrid_step_opt(false)` / `from_biodivine` pairing** (`Bio.nativeStableRep`: candidates
+from the library object, test on the own store; C03 `native_rewriting_exact`), same hypotheses.  NOT the pairing the
+CLI's default hybrid arm runs (pre-grounded native object, candidates from the un-grounded library object: `hsame`
+fails there, `C03.hsame_fails_for_the_cli_pairing`) - for that see `stmrew_cli_hybrid_outputs_invariant` below -/
 theorem stmrew_hybrid_outputs_invariant {T : Type} (L : Bio.Lib T) (xs ys : List Label)
     (W : Bio.Lawful L xs.length) (W' : Bio.Lawful L ys.length) (s s' : Store) (ac ac' : List Nat)
     (H : SameLabelMaps xs ys s ac s' ac') (b : Built xs.length s ac) (b' : Built ys.length s' ac')
@@ -818,17 +822,54 @@ theorem stmrew_hybrid_outputs_invariant {T : Type} (L : Bio.Lib T) (xs ys : List
     rw [(C03.native_rewriting_exact L ys.length W' s' ac' b'.wf b'.len b'.valid rw' acB' hv' hl' hsame' hg').2.2.1 v]
     rfl
 
+/-- `--stmrew` / `--stmrew2` as the CLI's HYBRID arm runs them: native object from `hybrid_step_opt(opt)`
+(CLI: `opt = true`, PRE-GROUNDED), candidates from the un-grounded library object -/
+theorem stmrew_cli_hybrid_outputs_invariant {T : Type} (L : Bio.Lib T) (xs ys : List Label)
+    (W : Bio.Lawful L xs.length) (W' : Bio.Lawful L ys.length)
+    (dump : T → List Node) (hd : Bio.DumpSpec W dump) (hd' : Bio.DumpSpec W' dump) (opt opt' : Bool)
+    (s s' : Store) (ac ac' : List Nat)
+    (H : SameLabelMaps xs ys s ac s' ac') (b : Built xs.length s ac) (b' : Built ys.length s' ac')
+    (rw rw' : Option T) (acB acB' : List T) (hv : ∀ a ∈ acB, W.Valid a) (hv' : ∀ a ∈ acB', W'.Valid a)
+    (hl : acB.length = xs.length) (hl' : acB'.length = ys.length)
+    (hsame : acB.map W.den = ac.map (eval s)) (hsame' : acB'.map W'.den = ac'.map (eval s'))
+    (hg : Bio.GoodRewrite W acB rw) (hg' : Bio.GoodRewrite W' acB' rw') (m : Label → Option (Option Bool)) :
+    m ∈ ((Bio.nativeStableRep (Bio.hybridStep L dump opt acB).1 xs.length (Bio.hybridStep L dump opt acB).2
+          (Bio.stableModelCandidates L rw acB)).2.map (fun v => v.map storeIsConst)).map (labelled xs) ↔
+      m ∈ ((Bio.nativeStableRep (Bio.hybridStep L dump opt' acB').1 ys.length (Bio.hybridStep L dump opt' acB').2
+          (Bio.stableModelCandidates L rw' acB')).2.map (fun v => v.map storeIsConst)).map (labelled ys) := by
+  apply stable_outputs_invariant xs ys s s' ac ac' H b b'
+  · intro v
+    rw [(C03.native_rewriting_on_hybrid L xs.length W dump hd opt rw acB hv hl hg).2.2.1 v, hsame]; rfl
+  · intro v
+    rw [(C03.native_rewriting_on_hybrid L ys.length W' dump hd' opt' rw' acB' hv' hl' hg').2.2.1 v, hsame']; rfl
+
 /-- NOT proved (kept as a statement): the same from the parser object alone, i.e. with the library
 objects of BOTH presentations produced by `CliM.bioBuild` — missing is the derivation of `hsame`,
-`hv`, `hg` for the re-sorted parser object from `CliM.bioBuild_facts` in one composed theorem -/
+`hv`, `hg` for the re-sorted parser object from `CliM.bioBuild_facts` in one composed theorem.
+(Third review, audit L1: the statement used to quantify ONE library `L` with `∀ n, Bio.Lawful L n`, which no library
+satisfies - `sat_spec` at `n = 1` and `n = 2` contradict each other on `satVals (evalExpr (.const true))`,
+`no_lib_lawful_for_all_n` below - so it was vacuously true; now a FAMILY of libraries indexed by the number of
+variables, as in `CliM.World` and C16.) -/
 def stmrew_parser_level_statement : Prop :=
-  ∀ {T : Type} (L : Bio.Lib T), (∀ n, Bio.Lawful L n) →
+  ∀ {T : Type} (Lf : Nat → Bio.Lib T), (∀ n, n ≤ VBOT → Bio.Lawful (Lf n) n) →
     ∀ (fs : List Fact), WellFormedAdf fs → ∀ (ns' : List Label), ns'.Perm (namesOf fs) →
       (namesOf fs).length ≤ VBOT → ∀ (rew : Bool) (b b' : List T × Option T),
-        CliM.bioBuild L (PState.ofFacts fs) rew = some b →
-        CliM.bioBuild L ((PState.ofFacts fs).resort ns') rew = some b' →
-        ∀ m, m ∈ ((Bio.bioStableRep L b.2 b.1).map (fun v => v.map storeIsConst)).map (labelled (namesOf fs)) ↔
-             m ∈ ((Bio.bioStableRep L b'.2 b'.1).map (fun v => v.map storeIsConst)).map (labelled ns')
+        CliM.bioBuild (Lf (namesOf fs).length) (PState.ofFacts fs) rew = some b →
+        CliM.bioBuild (Lf (namesOf fs).length) ((PState.ofFacts fs).resort ns') rew = some b' →
+        ∀ m, m ∈ ((Bio.bioStableRep (Lf (namesOf fs).length) b.2 b.1).map (fun v => v.map storeIsConst)).map
+               (labelled (namesOf fs)) ↔
+             m ∈ ((Bio.bioStableRep (Lf (namesOf fs).length) b'.2 b'.1).map (fun v => v.map storeIsConst)).map
+               (labelled ns')
+
+/-- no single library is lawful for every number of variables (why the statement above needs a family) -/
+theorem no_lib_lawful_for_all_n {T : Type} (L : Bio.Lib T) (W : ∀ n, Bio.Lawful L n) : False := by
+  have h1 := (W 1).evalExpr_spec (.const true) rfl
+  have h2 := (W 2).evalExpr_spec (.const true) rfl
+  have s1 := ((W 1).sat_spec _ h1.1).2 [true]
+  have s2 := ((W 2).sat_spec _ h2.1).2 [true]
+  rw [h1.2] at s1; rw [h2.2] at s2
+  have m : [true] ∈ L.satVals (L.evalExpr (.const true)) := s1.mpr ⟨rfl, rfl⟩
+  have := (s2.mp m).1; simp at this
 
 /-- the parser-level source of all hypotheses at once: for a well-formed ADF and any parser object
 presenting a permutation of its names (every sort, `--lx`, `--an`, both), both objects are built,
@@ -846,10 +887,11 @@ theorem presented_built (fs : List Fact) (hwf : WellFormedAdf fs) (st : PState) 
 
 /-- **what order `--an` reports** (uses `IsVarsortAlphanum.sorted`): after `varsort_alphanum` the
 name list is a duplicate-free permutation of the declared names, pairwise ordered by the comparison
-`le` the crate implements (NOT modelled — the statement is relative to it), and entry `k` of every
+`le` (ANY comparison - the statement is relative to it), and entry `k` of every
 printed vector is the value of the label at position `k` of that list. So: statements are reported
 in `le`-ascending label order; which order that is on concrete labels ("natural": digit runs by
-value) rests on the crate `lexical-sort` and is open in this development -/
+value) rests on the crate `lexical-sort`, modelled as `CliM.NatLex.le` (`an_sort_is_varsort_alphanum`,
+`varsort_alphanum_unique` below; fidelity limits of the model: C15) -/
 theorem alphanum_reports_le_order (le : Label → Label → Bool) (fs : List Fact) (st' : PState)
     (hs : IsVarsortAlphanum le (PState.ofFacts fs) st') :
     st'.namelist.Perm (namesOf fs) ∧ st'.namelist.Nodup ∧
@@ -899,3 +941,7 @@ end C10
 #print axioms C10.stmrew_hybrid_outputs_invariant
 #print axioms C10.presented_built
 #print axioms C10.alphanum_reports_le_order
+
+#print axioms C10.stmrew_cli_hybrid_outputs_invariant
+#print axioms C10.no_lib_lawful_for_all_n
+#print axioms C10.procedures_agree
